@@ -122,8 +122,55 @@ class ListIntervalTree:
     def __getitem__(self, sl):
         return self._ordered([x for x in self.items if B(x.begin < sl.stop) and B(x.end > sl.start)])
 
-    def overlaps(self, b, e):
+    def overlaps(self, b, e=None):
+        if e is None:
+            return any(B(x.begin <= b) and B(x.end > b) for x in self.items)
         return any(B(x.begin < e) and B(x.end > b) for x in self.items)
+
+    # further intervaltree.IntervalTree API a refactoring might switch to
+    def overlap(self, b, e=None):
+        if e is None and hasattr(b, 'begin'):
+            b, e = b.begin, b.end
+        return set_like(self._ordered([x for x in self.items if B(x.begin < e) and B(x.end > b)]))
+
+    def at(self, p):
+        return set_like(self._ordered([x for x in self.items if B(x.begin <= p) and B(x.end > p)]))
+
+    def envelop(self, b, e=None):
+        if e is None and hasattr(b, 'begin'):
+            b, e = b.begin, b.end
+        return set_like(self._ordered([x for x in self.items if B(x.begin >= b) and B(x.end <= e)]))
+
+    def addi(self, begin, end, data=None):
+        return self.add(SInterval(begin, end, data))
+
+    def removei(self, begin, end, data=None):
+        return self.remove(SInterval(begin, end, data))
+
+    def discard(self, iv):
+        try:
+            self.remove(iv)
+        except ValueError:
+            pass
+
+    def discardi(self, begin, end, data=None):
+        return self.discard(SInterval(begin, end, data))
+
+    def __contains__(self, iv):
+        return any(x.data is iv.data and B(x.begin == iv.begin) and B(x.end == iv.end) for x in self.items)
+
+    def is_empty(self):
+        return not self.items
+
+    def clear(self):
+        self.items = []
+
+
+class set_like(list):
+    """result of a tree query: list with the bit of the set API callers use"""
+
+    def __sub__(self, o):
+        return set_like(x for x in self if all(x is not y for y in o))
 
 
 # ---------------------------------------------------------------- assignment contract stubs
